@@ -234,9 +234,10 @@ func init() {
 			ID: "C13",
 			Runs: []Run{
 				{Harness: "zzverif/zzh.ZZC13Spelling", Desc: "the same nine statements (field write, ++, write through pointer parameter, T{}, &T{}, new(T), var v T, method call, signature) in five files of package u that spell the type directly, through a renamed import, parenthesised, through a local alias (incl. alias of the pointer type) and through an alias declared in a third package; annotation kind on the type symbolic (@immutable/@constructor/@testonly/@packageonly/none): every file gets the same codes on the same lines", Bounds: map[string]interface{}{"spellings": 5, "annotation_kinds": 5, "statements": 9}},
-				{Harness: "zzverif/zzh.ZZC01Edge", Desc: "receiver spellings: a method declared with an alias-spelled receiver (constructor exemption, receiver overwrite) gets the verdicts of the directly spelled one; writes through a defined pointer type vs the explicit dereference; promoted vs explicit field paths", Bounds: map[string]interface{}{"skeleton": "c01SrcEdge"}},
+				{Harness: "zzverif/zzh.ZZC01Edge", Desc: "receiver spellings and alias spellings of the written value (alias of the pointer type, alias of an alias; all four write forms): a method declared with an alias-spelled receiver (constructor exemption, receiver overwrite) gets the verdicts of the directly spelled one; writes through a defined pointer type vs the explicit dereference; promoted vs explicit field paths", Bounds: map[string]interface{}{"skeleton": "c01SrcEdge"}},
+				{Harness: "zzverif/zzh.ZZC02Forms", Desc: "instantiation forms where the annotated type is reached through an alias or a named collection type, incl. elided elements of []*Alias / map[K]*Alias (same run as under C02)", Bounds: map[string]interface{}{"skeleton": "c02SrcF1+F2", "sites": 25, "list_spellings": 4}},
 			},
-			Outside:     []string{"aliases of aliases; generic aliases; dot-imports; @implements through aliases (C05)"},
+			Outside:     []string{"generic aliases; dot-imports; @implements through aliases (C05); aliases of aliases other than for field writes"},
 			Assumptions: []string{"as C01-C04; a local alias declaration is itself a reference to the type (PKGO01's first use in that file)"},
 		},
 	)
